@@ -1768,7 +1768,7 @@ func init() {
 		Cases: func(tier string, seed uint64) []fw.Case {
 			n := 1000
 			if tier == "thorough" {
-				n = 30000
+				n = 400000
 			}
 			var cs []fw.Case
 			for sec := c13Modify; sec <= c13Delete; sec++ {
